@@ -185,6 +185,7 @@ def run_check(prop_id, mod_name, tier, n_cases, wall_cap, level, rule, assumptio
                 # too large to inline (a multi-megabyte shipped journal in the scenario): the run is a pure function of
                 # (VERIF_SEED, case index, tier), so the replay document names those and the case is regenerated
                 rp = {"kind": "regenerate", "module": mod_name, "seed": seed, "case": i, "tier": tier}
+            core.MINIMISE_DEADLINE[0] = time.time() + float(os.environ.get("S4SIM_MINIMISE_WALL", "180"))
             try:
                 if rp.get("kind") == "regenerate":
                     pass
@@ -194,6 +195,8 @@ def run_check(prop_id, mod_name, tier, n_cases, wall_cap, level, rule, assumptio
                     rp = minimise_schedule(rp, v.cls, mod.classes_of)
             except Exception:
                 sys.stderr.write("minimiser failed (reporting unminimised):\n" + traceback.format_exc())
+            finally:
+                core.MINIMISE_DEADLINE[0] = None
             path = os.path.join(rdir, "%s-%s-%d.json" % (prop_id, v.cls, core.derive(seed, prop_id, i) % 10**9))
             doc = {"version": 1, "property": prop_id, "class": v.cls, "verif_seed": seed, "case": i,
                    "detail": v.detail[:4000], "replay": rp}
@@ -258,6 +261,8 @@ def minimise_schedule(rp, cls, classes_of, max_runs=24):
 
     def fails(c):
         nonlocal runs
+        if not core.budget_ok():
+            return False
         runs += 1
         try:
             return cls in classes_of(c)
